@@ -393,6 +393,16 @@ fn discipline(ctx: &Ctx, rep: &mut Report) {
     }
     cases.push(("duplicate-label-unreferenced".into(), Program { lines: vec![Line::stmt(Some("a"), halt()), Line::stmt(Some("a"), halt())] }, false));
     cases.push(("duplicate-label-on-data".into(), Program { lines: vec![Line::stmt(Some("a"), Stmt::new(Op::Fill, &[], Operand::Lit(Lit::Dec(1)))), Line::stmt(Some("a"), Stmt::new(Op::Stringz, &[], Operand::Str("x".into())))] }, false));
+    // duplicates where one definition sits on a `.break` / `.orig` line (which emits no word, so
+    // both definitions mark the same address)
+    let brk = |l: &str| Line { label: Some((l.into(), false)), body: Body::Break };
+    let lorig = |l: &str| Line { label: Some((l.into(), true)), body: Body::Orig(Lit::Hex(0x3000, 0)) };
+    cases.push(("duplicate-label-break-then-statement".into(), Program { lines: vec![Line::stmt(None, halt()), brk("dup"), Line::stmt(Some("dup"), halt())] }, false));
+    cases.push(("duplicate-label-orig-then-statement".into(), Program { lines: vec![lorig("dup"), Line::stmt(Some("dup"), halt())] }, false));
+    cases.push(("duplicate-label-statement-then-break".into(), Program { lines: vec![Line::stmt(Some("dup"), halt()), brk("dup"), Line::stmt(None, halt())] }, false));
+    cases.push(("duplicate-label-two-breaks".into(), Program { lines: vec![brk("dup"), brk("dup"), Line::stmt(None, halt())] }, false));
+    cases.push(("duplicate-label-break-then-later-statement".into(), Program { lines: vec![brk("dup"), Line::stmt(None, halt()), Line::stmt(Some("dup"), halt())] }, false));
+    cases.push(("distinct-labels-break-and-statement".into(), Program { lines: vec![brk("one"), Line::stmt(Some("two"), refl(Op::Lea, "one")), Line::stmt(None, refl(Op::Ld, "two"))] }, false));
     cases.push(("label-at-end-of-file".into(), Program { lines: vec![Line::stmt(None, halt()), Line { label: Some(("tail".into(), false)), body: Body::Break }] }, false));
     cases.push(("orig-none".into(), Program { lines: vec![Line::stmt(None, halt())] }, false));
     cases.push(("orig-once".into(), Program { lines: vec![orig(0x4000), Line::stmt(None, halt())] }, false));
@@ -502,6 +512,18 @@ fn inject(p: &mut Program, inj: &Inject) -> Option<&'static str> {
             }
             p.lines[dst].label = Some(name);
             Some("duplicate-label")
+        }
+        4 if inj.over & 1 == 0 => {
+            // duplicate a label onto a `.break` line right before (or after) the labelled statement
+            let labelled: Vec<usize> = (0..p.lines.len()).filter(|i| p.lines[*i].label.is_some() && matches!(p.lines[*i].body, Body::Stmt(_))).collect();
+            if labelled.is_empty() {
+                return None;
+            }
+            let src = labelled[pick(inj.at, labelled.len())];
+            let name = p.lines[src].label.clone().unwrap();
+            let at = if inj.over & 2 == 0 { src } else { src + 1 };
+            p.lines.insert(at, Line { label: Some(name), body: Body::Break });
+            Some("duplicate-label-on-break-line")
         }
         4 => {
             // a second .orig somewhere
